@@ -50,6 +50,24 @@ def gen_mpmc(rng, tier):
             for t in rng.sample(range(nt), rng.randrange(1, nt)):
                 threads[t] = "J," + threads[t]
         cases.append({"args": [pool, scan_every, "|".join(threads)], "env": sched_env(rng)})
+    # teardown with items left: a producer-heavy run on 2 threads and a pool large enough for
+    # the retirements inside mpmc_fifo_destroy to reach the threshold (2 * threads * slots) and
+    # scan in the middle of the walk
+    for i in range(n_cases(tier, 150, 1000)):
+        pool = rng.randrange(6, 15)
+        nxt = 1
+        threads = []
+        for t in range(2):
+            ops = []
+            for _ in range(rng.randrange(4, 10)):
+                if rng.random() < 0.8:
+                    ops.append("p%d" % nxt)
+                    nxt += 1
+                else:
+                    ops.append("o")
+            threads.append(",".join(ops))
+        cases.append({"args": [pool, rng.choice([0, 0, 3]), "|".join(threads), "d"], "env": sched_env(rng)})
+    rng.shuffle(cases)  # other properties take a prefix of this list (C14, C06): keep it a fair sample
     return cases
 
 
